@@ -4,7 +4,9 @@
    [op, s (stream), n, r = [k, v], snap]: what the real call returned and a digest of the pattern object's
    deep state after the call.  den = D(x, n) is computed once per trace; every event must return what the
    stream operators of Pattern.tla say, and the pattern's state must still be the initial one (Immutable).
-   What a stream returns after it has signalled its end is not specified.  One verdict per trace.         *)
+   A stream that has signalled its end stays ended: every later next() raises StopStream again, a second
+   list()/all() on the same stream object is empty (Stream protocol: Routine.next "Done -> raise StopStream",
+   iterator protocol; Placep and other pollers rely on it).  One verdict per trace.                         *)
 EXTENDS Pattern, Json, IOUtils
 Traces == JsonDeserialize(IOEnv.VERIF_TRACES)
 MaxS == 8
@@ -14,7 +16,7 @@ tvars == <<tid, l, den, pos, fin>>
 TInit == /\ tid \in 1..Len(Traces) /\ l = 0
          /\ den = Res(<<>>, TRUE)
          /\ pos = [i \in 1..MaxS |-> 0 - 1]
-         /\ fin = {}            \* streams that have signalled their end: what they do when asked again is not specified
+         /\ fin = {}            \* streams that have signalled their end (they must keep doing so: OpNext/OpTake/OpAll at the end)
 \* the denotation is computed once per trace (in a worker thread: deep recursion needs the workers' -Xss)
 Start == /\ l = 0 /\ l' = 1 /\ den' = D(Traces[tid].x, Traces[tid].n) /\ UNCHANGED <<tid, pos, fin>>
 
@@ -31,10 +33,9 @@ Expect(e, ps, N) ==
 Why(e, x, N, snap0) ==
     IF ~den.ok THEN "undefined"                                       \* generator error: never a verdict on the code
     ELSE IF e.op \in {"next", "take", "all", "reset"} /\ pos[e.s] < 0 THEN "no-stream"
-    ELSE IF e.op = "take" /\ pos[e.s] + e.n > N THEN "beyond"
+    ELSE IF e.op = "take" /\ pos[e.s] + e.n > N /\ ~Ended(den, N) THEN "beyond"
     ELSE IF e.op = "next" /\ pos[e.s] >= N THEN "beyond"
     ELSE IF e.op \in {"all", "list"} /\ ~Ended(den, N) THEN "beyond"
-    ELSE IF e.op \in {"next", "take", "all"} /\ e.s \in fin THEN (IF e.snap # snap0 THEN "Immutable" ELSE "ok")
     ELSE LET ex == Expect(e, pos, N) IN
          IF e.r.k # ex.ret.k THEN
               (IF e.r.k \in {"val", "seq", "seqstop", "stop", "none"} THEN "ends:" \o ex.ret.k \o "-got-" \o e.r.k
@@ -50,7 +51,7 @@ Step == /\ l >= 1 /\ l <= Len(Traces[tid].ev)
                why == Why(e, tr.x, tr.n, tr.snap0) IN
            IF why = "ok"
            THEN /\ l' = l + 1 /\ UNCHANGED <<tid, den>>
-                /\ IF e.op = "list" \/ (e.s \in fin /\ e.op \in {"next", "take", "all"}) THEN UNCHANGED <<pos, fin>>
+                /\ IF e.op = "list" THEN UNCHANGED <<pos, fin>>
                    ELSE LET ex == Expect(e, pos, tr.n) IN
                         /\ pos' = [pos EXCEPT ![e.s] = ex.pos]
                         /\ fin' = IF e.op \in {"new", "reset"} THEN fin \ {e.s}
